@@ -2029,17 +2029,33 @@ where
     where
         W: Write,
     {
-        // prepare data set writer
-        let mut dset_writer =
-            DataSetWriter::with_ts_cs_options(to, ts, cs, options).context(CreatePrinterSnafu)?;
         let required_options = IntoTokensOptions::new(self.charset_changed);
+        if let Codec::Dataset(Some(adapter)) = ts.codec() {
+            // the data set itself is compressed: write through the adapter
+            let adapter = adapter.adapt_writer(Box::new(to));
+            let mut dset_writer = DataSetWriter::with_ts_cs_options(adapter, ts, cs, options)
+                .context(CreatePrinterSnafu)?;
 
-        // write object
-        dset_writer
-            .write_sequence(self.into_tokens_with_options(required_options))
-            .context(PrintDataSetSnafu)?;
+            // write object
+            dset_writer
+                .write_sequence(self.into_tokens_with_options(required_options))
+                .context(PrintDataSetSnafu)?;
 
-        Ok(())
+            dset_writer.flush().context(PrintDataSetSnafu)?;
+
+            Ok(())
+        } else {
+            // prepare data set writer
+            let mut dset_writer = DataSetWriter::with_ts_cs_options(to, ts, cs, options)
+                .context(CreatePrinterSnafu)?;
+
+            // write object
+            dset_writer
+                .write_sequence(self.into_tokens_with_options(required_options))
+                .context(PrintDataSetSnafu)?;
+
+            Ok(())
+        }
     }
 
     /// Write this object's data set into the given writer,
